@@ -19,12 +19,26 @@ JUNK_SEGMENTS = ["", " ", "bla", "hamlet ", "V001", "v01", "v0001", "sq1", "sh00
 CONTROL = ["\n", "\r", "\t", "\x00", "\x0b", "\x1f", " "]
 
 
+_collision_pool: List[str] = []
+
+
+def collision_pool() -> List[str]:
+    """Values of OTHER levels of the loaded configuration (task names, extensions, aliases, versions, type codes ...):
+    a free-valued level may legitimately carry any of them, which makes strings ambiguous between templates."""
+    if not _collision_pool:
+        from vp import confmodel
+        m = confmodel.load_sid()
+        _collision_pool.extend(values_of_any_level(m) + sorted(m.extension_alias))
+    return _collision_pool
+
+
 def free_name(wide: bool = False) -> st.SearchStrategy[str]:
     if not wide:
         return st.sampled_from(SMALL_NAMES)
     return st.one_of(
         st.sampled_from(SMALL_NAMES),
         st.text(alphabet=WIDE_ALPHABET, min_size=1, max_size=8),
+        st.sampled_from(collision_pool()),
     )
 
 
